@@ -2,6 +2,7 @@ package drive
 
 import (
 	"fmt"
+	"strings"
 	"math/rand"
 	"sort"
 
@@ -83,7 +84,8 @@ func (s *gateState) project() map[string]any {
 }
 
 func RunGate(behs [][]Step, tr *Trace, env Env, sum *Summary) {
-	sendLogs := env.Mode == "logs"
+	sendLogs := strings.Contains(env.Mode, "logs")
+	pivot := strings.Contains(env.Mode, "pivot")
 	for bi, beh := range behs {
 		func() {
 			w, err := world.New(env.Scratch, world.Options{SendLogs: sendLogs})
@@ -93,9 +95,22 @@ func RunGate(behs [][]Step, tr *Trace, env Env, sum *Summary) {
 			rng := rand.New(rand.NewSource(env.Seed + int64(bi)*1000003))
 			for i, sym := range []string{"a1", "a2"} {
 				id := uint32(rng.Int63n(0x7ffffff0)) + 1
-				r := w.Register(id, world.KeysFor(env.Seed+int64(bi), i, false), refdemon.DefaultMeta(sym))
-				if r.Status != 200 {
-					panic(fmt.Sprintf("harness-error: registration failed: %+v", r))
+				k := world.KeysFor(env.Seed+int64(bi), i, false)
+				if pivot && sym == "a2" {
+					// a2 sits behind a1 (SMB pivot): its registration arrives inside a1's connect callback
+					b := &refdemon.Buf{}
+					b.I32(refdemon.PivotSmbConnect).I32(1).Bytes(refdemon.Register(id, k, refdemon.DefaultMeta(sym)))
+					a1 := s.agents["a1"]
+					w.Request(refdemon.Packages(a1, w.Keys[a1], []refdemon.Sub{{Cmd: refdemon.CmdPivot, Body: b.B}}))
+					if w.Agent(id) == nil || w.Agent(id).Pivots.Parent == nil {
+						panic("harness-error: pivot setup failed")
+					}
+					w.Keys[id] = k
+				} else {
+					r := w.Register(id, k, refdemon.DefaultMeta(sym))
+					if r.Status != 200 {
+						panic(fmt.Sprintf("harness-error: registration failed: %+v", r))
+					}
 				}
 				s.agents[sym] = id
 			}
